@@ -335,5 +335,6 @@ func runC10() int {
 	rep.Coverage["distinct_nontrivial"] = len(rep.Outcomes)
 	rep.Coverage["rule"] = "for each canonical history (sync, extension, reorgs within a file and across the 1000-header boundary, reorg with a relevant tx in the reverted block, clean stop; both delete-missing behaviours) executed on the real node: (a) for EVERY prefix of the storage mutation log a fresh node is started on that image: the block store must load, be hash-linked and consist only of announced blocks, and the node must converge to the peer's best chain after the drain; (b) for EVERY storage operation j (read/write/remove/list) that operation fails once: the running node must converge, or a restart must. distinct = distinct (kind of op, kind of key) crash/fault sites"
 	rep.Assumptions = append(peerAssumption, "storage writes/removes are atomic per key (no torn files)", "after a crash the peer is at the best chain it had at the end of the history")
+	repoConc(rep, "C10")
 	return rep.Finish()
 }
